@@ -153,7 +153,7 @@ class CallMixin:
         if t.shared:
             st.shared.add(ref.oid)
         for c in self.repo.mro(cinfo):
-            vf = self.registry.valid.get(c.qualname)
+            vf = None if getattr(t, 'unvalidated', False) else self.registry.valid.get(c.qualname)
             if vf is not None:
                 for f in vf(View(self, st), ref):
                     st.assume(f)
